@@ -1111,7 +1111,17 @@ class list_t(object):
             self.get_model().field_l[k].set_val(
                 ValueScalar(int(v) & (1 << self.t.width)-1))
         else:
+            if not issubclass(type(v), type(self.t)):
+                raise Exception("Attempting to assign illegal element to object array")
             self.backing_arr[k] = v
+            # The new object takes the place of the old one in the model too
+            model = self.get_model()
+            if k < 0:
+                k += len(model.field_l)
+            model.set_field(k, v.get_model())
+            v.get_model().is_declared_rand = model.is_declared_rand
+            v.get_model().rand_mode = model.is_declared_rand
+            model.name_elems()
             
     def __str__(self):
         model = self.get_model()
